@@ -93,6 +93,7 @@ func H_EPOCHS() {
 		vAssert(m.dead == 0, "completeness: no dead version remains linked")
 		st := db.aggrStoreStats()
 		vAssert(st.NodeCount == model.count(), "node_count equals live items")
+		vAssert(vDistOK(&st, &m), "per-level node counts equal the walk")
 		vAssert(st.SoftDeletes == 0, "soft_deletes is zero at quiescence")
 		vAssert(db.MemoryInUse() == m.mem, "MemoryInUse equals what the live items account for")
 		vAssert(db.GetLastGCSn() == lastSn, "collector advanced to the last closed snapshot")
